@@ -69,6 +69,12 @@ impl AutoDespawner
     }
 }
 
+#[cfg(feature = "verif")]
+impl AutoDespawner
+{
+    pub(crate) fn verif_pending(&self) -> usize { self.receiver.len() }
+}
+
 //-------------------------------------------------------------------------------------------------------------------
 
 /// RAII handle to a despawn signal.
